@@ -41,6 +41,7 @@ func loadAll(repo, verif string) *Prog {
 		os.Exit(3)
 	}
 	p.buildGuards()
+	p.registerModuleFields()
 	debugf("loaded in %.1fs: %d functions, %d contracts, %d extern specs", time.Since(t0).Seconds(), len(p.Funcs), len(p.Contracts), len(p.Externs))
 	return p
 }
